@@ -75,4 +75,42 @@ func init() {
 		Functions: []string{"outputstream.(*messageBatch).marshal", "outputstream.unmarshalMessageBatch", "encoding/binary.littleEndian.PutUint64", "encoding/binary.littleEndian.Uint64"},
 		Rule:      "one case per (message count, recipient counts, payload lengths); non-trivial when the round-trip assertions are reached",
 	})
+
+	registerCheck(&CheckDef{
+		ID: "C08",
+		Runs: func(tier string) []HarnessRun {
+			p := map[string]int{"initial": 2, "env": 2}
+			if tier == "thorough" {
+				p = map[string]int{"initial": 3, "env": 3}
+			}
+			stubs := map[string]string{
+				"(*" + repoMod + "/internal/outputstream.messageBatch).marshal":   "codec.marshal",
+				repoMod + "/internal/outputstream.unmarshalMessageBatch":          "codec.unmarshal",
+			}
+			return []HarnessRun{
+				{Name: "getnext", Pkg: "internal/outputstream", PkgName: "outputstream", Files: []string{"outputstream/c08.go"},
+					SymFiles: []string{"outputstream/c08_sym.go"}, NatFiles: []string{"outputstream/c08_native.go"}, APIs: []string{"ldb"},
+					Entry: "verifHarness_C08_getnext", Params: p, Unwind: 8, Panics: true, Stubs: stubs},
+				{Name: "get", Pkg: "internal/outputstream", PkgName: "outputstream", Files: []string{"outputstream/c08.go"},
+					SymFiles: []string{"outputstream/c08_sym.go"}, NatFiles: []string{"outputstream/c08_native.go"}, APIs: []string{"ldb"},
+					Entry: "verifHarness_C08_get", Params: p, Unwind: 8, Panics: true, Stubs: stubs},
+			}
+		},
+		Assumptions: []string{
+			"goleveldb is an ordered key/value store with atomic batches (engine model, DESIGN §5.1)",
+			"the output batch codec round-trips (abstract codec here; decided at byte level by C18)",
+			"GetNext gives up the stream lock only between RUnlock and Lock and inside Cond.Wait; Add/Delete/InterruptGetNext hold the write lock for their whole body (lock table checked by the engine), so they are atomic environment steps",
+			"batches are added in increasing id order and compaction deletes oldest-first; the queried position is not newer than the newest id ever added (newer positions are C04's concern)",
+			"sync.Cond: Wait returns only after a Broadcast; fairness is not modelled",
+		},
+		Bounds: func(tier string) map[string]interface{} {
+			if tier == "thorough" {
+				return map[string]interface{}{"initial_batches": 3, "environment_operations_per_call": 3, "readers": 1}
+			}
+			return map[string]interface{}{"initial_batches": 2, "environment_operations_per_call": 2, "readers": 1}
+		},
+		Outside:   []string{"more environment operations per call than the bound", "several concurrent readers (they interact only through the cache)", "cache eviction (>1000 entries)", "LevelDB internals"},
+		Functions: []string{"outputstream.(*OutputStream).GetNext", "Get", "Add", "Delete", "InterruptGetNext", "getUnlocked"},
+		Rule:      "one case per (initial batches, compacted prefix, environment program, yield point placement); non-trivial when the reader returns or parks and the oracle is evaluated",
+	})
 }
